@@ -209,4 +209,73 @@ example : (recordAndCheck cEx ⟨[], [(7, 15)]⟩ 7 (fun _ => 15)).deny = false 
     distinct reads the stored free time is later by (third read − first read of IncAndCheck) -/
 example : (recordAndCheck cEx ⟨[(7, ⟨2, 0⟩)], []⟩ 7 (fun j => 9 + j)).st.prison = [(7, 16)] := by decide
 
+/-! ## Module level: reload histories, several rules per request -/
+
+/-- A rejected rule file changes nothing (the old table, with all its dictionaries, stays in use). -/
+theorem C53_reload_rejected (sc : Nat) (tb : Table) (wf : Bool) (conf : List (Nat × List RuleSpec))
+    (h : confValid wf conf = false) : reload sc tb wf conf = tb := by
+  simp [reload, h]
+
+/-- The table after an accepted reload depends only on the accepted file and, per rule of that file, on
+    the old rule with the SAME product and the SAME name: nothing else of the old table can leak. -/
+theorem C53_reload_depends_on_named_state (sc : Nat) (tb1 tb2 : Table) (wf : Bool)
+    (conf : List (Nat × List RuleSpec)) (hv : confValid wf conf = true)
+    (h : ∀ p n, oldRule tb1 p n = oldRule tb2 p n) :
+    reload sc tb1 wf conf = reload sc tb2 wf conf := by
+  simp only [reload, hv, if_true, h]
+
+/-- Fresh start: after an accepted reload every rule whose (product, name) did not exist before has
+    empty dictionaries — a renamed rule, a rule moved to another product or a new rule inherits nothing,
+    whatever other rules had counted or jailed. -/
+theorem C53_reload_fresh (sc : Nat) (tb : Table) (wf : Bool) (conf : List (Nat × List RuleSpec))
+    (hv : confValid wf conf = true) (pr : Nat × List RuleM) (hpr : pr ∈ reload sc tb wf conf)
+    (r : RuleM) (hr : r ∈ pr.2) (hnew : oldRule tb pr.1 r.name = none) :
+    r.st.access = [] ∧ r.st.prison = [] := by
+  simp only [reload, hv, if_true, List.mem_map] at hpr
+  obtain ⟨pc, _, rfl⟩ := hpr
+  simp only [List.mem_map] at hr
+  obtain ⟨sp, _, rfl⟩ := hr
+  have hn : (mkRule sc (oldRule tb pc.1 sp.name) sp).name = sp.name := rfl
+  rw [hn] at hnew
+  simp [mkRule, hnew]
+
+/-- Kept rule: a rule whose (product, name) existed takes over exactly that rule's dictionaries, and its
+    capacities never shrink. -/
+theorem C53_reload_kept (sc : Nat) (o : RuleM) (sp : RuleSpec) :
+    (mkRule sc (some o) sp).st = o.st ∧ o.acap ≤ (mkRule sc (some o) sp).acap ∧
+    o.pcap ≤ (mkRule sc (some o) sp).pcap := by
+  refine ⟨rfl, ?_, ?_⟩
+  · simp only [mkRule]; split <;> omega
+  · simp only [mkRule]; split <;> omega
+
+/-- A request that no rule can sign (signed header / cookie / query / url pattern missing) or that
+    matches no rule's condition is neither counted nor denied by any rule. -/
+theorem C53_unsignable_not_counted (q : ReqM) (rs : List RuleM)
+    (h : ∀ r ∈ rs, (r.needSel && !q.sel) = true ∨ q.key r.sign r.needSel = none) :
+    (processRules q rs).stopped = false ∧ (processRules q rs).denied = [] ∧ (processRules q rs).rules = rs := by
+  induction rs with
+  | nil => simp [processRules]
+  | cons r rs ih =>
+    have ih' := ih (fun x hx => h x (List.mem_cons_of_mem _ hx))
+    rcases h r (List.mem_cons_self) with h1 | h1
+    · simp only [processRules, h1, if_true]
+      exact ⟨ih'.1, ih'.2.1, by rw [ih'.2.2]⟩
+    · by_cases h0 : (r.needSel && !q.sel) = true
+      · simp only [processRules, h0, if_true]
+        exact ⟨ih'.1, ih'.2.1, by rw [ih'.2.2]⟩
+      · simp only [processRules, h0, h1]
+        exact ⟨ih'.1, ih'.2.1, by rw [ih'.2.2]; simp⟩
+
+/-! exact boundaries (cp 10, stay 5, threshold 2): a hit exactly at the window end `start + cp` is still
+    counted in the window (the reset test is `start + cp < now`), one tick later it opens a new window;
+    a request exactly at the free time is released (`now < freeTime` is false) -/
+example : (recordAndCheck cEx ⟨[(7, ⟨2, 0⟩)], []⟩ 7 (fun _ => 10)).deny = true := by decide
+example : (recordAndCheck cEx ⟨[(7, ⟨2, 0⟩)], []⟩ 7 (fun _ => 11)).deny = false := by decide
+example : (recordAndCheck cEx ⟨[], [(7, 15)]⟩ 7 (fun _ => 14)).deny = true := by decide
+example : (recordAndCheck cEx ⟨[], [(7, 15)]⟩ 7 (fun _ => 15)).deny = false := by decide
+/-- threshold 0 with stay 0: the hit at the very end of its own window is jailed for zero time -/
+example : (recordAndCheck ⟨10, 0, 0, 4, 4⟩ ⟨[], []⟩ 7 (fun _ => 3)).deny = true := by decide
+/-- LRU at capacity: with prison capacity 1, jailing key 8 evicts the jailed key 7 (reported in `ev`) -/
+example : (recordAndCheck ⟨10, 5, 0, 4, 1⟩ ⟨[], [(7, 100)]⟩ 8 (fun _ => 3)).ev = [7] := by decide
+
 end BfeVerif.C53
